@@ -87,6 +87,9 @@ type c11Base struct {
 
 func (b *c11Base) Header() http.Header { return b.hdr }
 func (b *c11Base) WriteHeader(c int)   { b.log.add(c11Event{What: "wh", Code: c, Hdr: b.hdr.Clone()}) }
+
+// Flush: the bottom writer can flush, like net/http's (the headers leave with it).
+func (b *c11Base) Flush() { b.log.add(c11Event{What: "flush", Hdr: b.hdr.Clone()}) }
 func (b *c11Base) Write(p []byte) (int, error) {
 	b.log.add(c11Event{What: "write", Bytes: string(p), Hdr: b.hdr.Clone()})
 	return len(p), nil
@@ -152,6 +155,11 @@ func c11Run(c c11Case) *Violation {
 				lw.Header().Set(in.Key, in.Val)
 			case "wh":
 				lw.WriteHeader(in.Code)
+			case "flush":
+				// what streaming handlers do: flush if the writer they were given can
+				if f, ok := lw.(http.Flusher); ok {
+					f.Flush()
+				}
 			case "write":
 				switch in.How {
 				case "copy":
@@ -227,8 +235,14 @@ func c11Run(c c11Case) *Violation {
 	// ---- oracle: expected deliveries derived from the program alone
 	var wantS, wantC []authboss.ClientStateEvent
 	firstWrite := -1
+	// a flush only matters if the writer handed to the handler passes it on (the library's does not today):
+	// then it releases the headers like a write does
+	flushReached := false
+	for _, e := range log.events {
+		flushReached = flushReached || e.What == "flush"
+	}
 	for i, in := range c.Prog {
-		if in.Op == "wh" || in.Op == "write" {
+		if in.Op == "wh" || in.Op == "write" || (in.Op == "flush" && flushReached) {
 			firstWrite = i
 			break
 		}
@@ -269,7 +283,7 @@ func c11Run(c c11Case) *Violation {
 			if st, ok := e.State.(c11State); !ok || fmt.Sprint(st) != fmt.Sprint(cook.state) {
 				return violation("C11", "wrong-state-object:cookie", "cookie WriteState received a state that is not the cookie state read at request start")
 			}
-		case "wh", "write":
+		case "wh", "write", "flush":
 			if firstRelease == 0 {
 				firstRelease = e.Seq
 			}
@@ -345,8 +359,8 @@ func c11Gen(t *rapid.T) c11Case {
 	c.NoCookie = rapid.IntRange(0, 19).Draw(t, "nocookie") == 0
 	nPre := rapid.IntRange(0, 8).Draw(t, "npre")
 	n := nPre + rapid.IntRange(0, 8).Draw(t, "npost")
-	preOps := []string{"put", "put", "put", "del", "del", "delall", "hset", "read"}
-	allOps := []string{"put", "put", "del", "delall", "hset", "wh", "write", "write", "wh", "read"}
+	preOps := []string{"put", "put", "put", "del", "del", "delall", "hset", "read", "flush"}
+	allOps := []string{"put", "put", "del", "delall", "hset", "wh", "write", "write", "wh", "read", "flush"}
 	for i := 0; i < n; i++ {
 		var in c11Instr
 		in.Via = rapid.IntRange(0, 3).Draw(t, "via")
@@ -380,6 +394,8 @@ func c11Gen(t *rapid.T) c11Case {
 		case "read":
 			in.Op, in.Store = "read", rapid.SampledFrom([]string{"session", "cookie"}).Draw(t, "store")
 			in.Key = rapid.SampledFrom(c11Keys).Draw(t, "key")
+		case "flush":
+			in.Op = "flush"
 		}
 		c.Prog = append(c.Prog, in)
 	}
